@@ -4,6 +4,7 @@ square-and-multiply with the `found_one` flag over the bits of a limb array) is 
 
 Stated for any monoid whose model squaring `sq` is `a * a` (`powBits_eq_pow`, `powLimbs_eq_pow`,
 `powNat_eq_pow_mod`, `powNat_eq_pow`) and specialised to lawful fields (`Lawful.powNat_eq_pow`, …).
+Everything lives in `namespace PP.PowLoop` (PP/Proofs/Bits.lean has similarly named bit lemmas).
 -/
 import Mathlib.Algebra.Group.Defs
 import Mathlib.Algebra.Group.Basic
@@ -11,6 +12,7 @@ import PP.Model.Field
 import PP.Proofs.Lawful
 
 namespace PP
+namespace PowLoop
 
 /-! ### the number denoted by an MSB-first bit list -/
 
@@ -150,21 +152,22 @@ namespace Lawful
 variable {F : Type} [Field F] [FieldOps F] [LawfulFieldOps F]
 
 theorem powBits_eq_pow (a : F) (bits : List Bool) : powBits a bits = a ^ ofBitsMSB bits :=
-  PP.powBits_eq_pow LawfulFieldOps.sq_eq a bits
+  PowLoop.powBits_eq_pow LawfulFieldOps.sq_eq a bits
 
 theorem powLimbs_eq_pow (a : F) (ls : List Nat) (h : LimbsOk ls) :
     powLimbs a ls = a ^ limbsToNat ls :=
-  PP.powLimbs_eq_pow LawfulFieldOps.sq_eq a ls h
+  PowLoop.powLimbs_eq_pow LawfulFieldOps.sq_eq a ls h
 
 theorem powNat_eq_pow_mod (a : F) (e k : Nat) : powNat a e k = a ^ (e % 2 ^ (64 * k)) :=
-  PP.powNat_eq_pow_mod LawfulFieldOps.sq_eq a e k
+  PowLoop.powNat_eq_pow_mod LawfulFieldOps.sq_eq a e k
 
 theorem powNat_eq_pow (a : F) (e k : Nat) (h : e < 2 ^ (64 * k)) : powNat a e k = a ^ e :=
-  PP.powNat_eq_pow LawfulFieldOps.sq_eq a e k h
+  PowLoop.powNat_eq_pow LawfulFieldOps.sq_eq a e k h
 
 theorem sqN_eq_pow (n : Nat) (a : F) : sqN a n = a ^ (2 ^ n) :=
-  PP.sqN_eq_pow LawfulFieldOps.sq_eq n a
+  PowLoop.sqN_eq_pow LawfulFieldOps.sq_eq n a
 
 end Lawful
 
+end PowLoop
 end PP
